@@ -188,6 +188,103 @@ def run_landscaper(case, ctx):
     ctx.nontrivial(len(extents) >= 2 and saw_transform_between and case["ops"][-1]["op"] != "fit")
 
 
+def landscaper_machine(record):
+    """Hypothesis rule-based state machine over a LIVE PersistenceLandscaper: the data of a fit / transform may be tied to the estimator's
+    CURRENT grid (its smallest birth equal to the present `start`, its largest death equal to the present `stop` - the coincidence the
+    learned-vs-user-fixed bookkeeping has to get right), parameters are assigned between calls; the recorded history has the format of
+    `landscaper_history` and is judged by run_landscaper on a fresh estimator."""
+    from hypothesis.stateful import RuleBasedStateMachine, initialize, precondition, rule
+
+    class LandscaperMachine(RuleBasedStateMachine):
+        def __init__(self):
+            super().__init__()
+            self.case = None
+            self.est = None
+            self.dead = False
+
+        @initialize(h=st.sampled_from([0, 0, 1]), n=st.sampled_from([5, 10, 11, 25, 50]), flat=st.booleans(), fixed=st.sampled_from(["none", "none", "start", "stop", "both"]),
+                    start=st.sampled_from([-1.0, 0.0, 2.0, -10.0]), stop=st.sampled_from([20.0, 9.0, 50.0, 120.0]), X=dgm_list(), ft=st.booleans())
+        def construct(self, h, n, flat, fixed, start, stop, X, ft):
+            self.case = {"hom_deg": h, "num_steps": n, "flatten": flat, "fixed": fixed, "start": start, "stop": stop, "ops": [], "machine": True}
+            user = {}
+            if fixed in ("start", "both"):
+                user["start"] = start
+            if fixed in ("stop", "both"):
+                user["stop"] = stop
+            try:
+                self.est = PersistenceLandscaper(hom_deg=h, num_steps=n, flatten=flat, **user)
+            except Exception:  # noqa: BLE001
+                self.dead = True
+                return
+            self._call("fit_transform" if ft else "fit", X)      # every history starts with a fit
+
+        def alive(self):
+            return self.case is not None and not self.dead and len(self.case["ops"]) < 20
+
+        def _call(self, op, X):
+            self.case["ops"].append({"op": op, "X": X})
+            try:
+                getattr(self.est, op)(arrs(X))
+            except Exception:  # noqa: BLE001 - run_landscaper reports it
+                self.dead = True
+
+        def _tied(self, X, tie):
+            """shift / stretch the diagram of the estimator's degree so that its extremes coincide with the present grid ends"""
+            h = self.case["hom_deg"]
+            d = [list(q) for q in X[h]]
+            s0, s1 = self.est.start, self.est.stop
+            lo = min(b for b, _ in d)
+            hi = max(q[1] for q in d)
+            if tie in ("start", "both") and s0 is not None:
+                d = [[b + (s0 - lo), e + (s0 - lo)] for b, e in d]
+                hi = max(q[1] for q in d)
+            if tie in ("stop", "both") and s1 is not None and all(b < s1 for b, _ in d):
+                d = [[b, (s1 if e == hi else min(e, s1))] for b, e in d]
+            if any(not e > b for b, e in d):
+                return None
+            out = [list(map(list, x)) for x in X]
+            out[h] = [[float(b), float(e)] for b, e in d]
+            return out
+
+        @precondition(lambda self: self.alive())
+        @rule(op=st.sampled_from(["fit", "fit", "transform", "transform", "fit_transform"]), X=dgm_list(), tie=st.sampled_from(["none", "none", "start", "stop", "both"]))
+        def call(self, op, X, tie):
+            if tie != "none":
+                X = self._tied(X, tie)
+                if X is None:
+                    return
+            self._call(op, X)
+
+        @precondition(lambda self: self.alive())
+        @rule(what=st.sampled_from(["start", "stop", "both", "num_steps", "flatten"]), via=st.sampled_from(["attr", "set_params"]),
+              start=st.sampled_from([-1.25, -7.75, 0.625]), stop=st.sampled_from([33.5, 140.25, 61.125]), num_steps=st.sampled_from([6, 13, 40]), flatten=st.booleans())
+        def set_parameter(self, what, via, start, stop, num_steps, flatten):
+            self.case["ops"].append({"op": "set", "what": what, "via": via, "start": start, "stop": stop, "num_steps": num_steps, "flatten": flatten})
+            new = {}
+            if what in ("start", "both"):
+                new["start"] = start
+            if what in ("stop", "both"):
+                new["stop"] = stop
+            if what == "num_steps":
+                new["num_steps"] = num_steps
+            if what == "flatten":
+                new["flatten"] = flatten
+            try:
+                if via == "set_params":
+                    self.est.set_params(**new)
+                else:
+                    for k, v in new.items():
+                        setattr(self.est, k, v)
+            except Exception:  # noqa: BLE001
+                self.dead = True
+
+        def teardown(self):
+            if self.case is not None and self.case["ops"]:
+                record(self.case)
+
+    return LandscaperMachine
+
+
 # =========================================================================================
 # imager
 
@@ -376,6 +473,10 @@ CLAUSES = [
                 "start/stop equal the user value or the extent of THAT fit's data; every transform equals the landscape on the grid of the most recent "
                 "fit, is repeatable and leaves get_params() unchanged; fit_transform == fit;transform on a fresh estimator; non-trivial = >= 2 fits "
                 "on data of different extent with a transform in between and after"),
+    Clause("landscaper_machine", machine=landscaper_machine, machine_steps=12, check=run_landscaper, quick=2400, thorough=24000,
+           rule="hypothesis.stateful.RuleBasedStateMachine driving a live PersistenceLandscaper: fit / transform / fit_transform on data whose extremes may be "
+                "TIED to the estimator's current start / stop, parameter assignments in between, up to 12 steps; the recorded history is judged by the same "
+                "interpreter and model as landscaper_history; non-trivial as there"),
     Clause("imager_history", imager_history(7), run_imager, quick=3000, thorough=30000, floors={"refit_different_extent": 0.2},
            rule="PersistenceImager with fixed pixel size / weight / kernel + 1..7 calls; after each fit the public state equals that of a fresh imager "
                 "fitted on that data only; fit_transform == fit;transform; transform of a collection (serially or with n_jobs) is element-wise and ordered, repeatable, and "
